@@ -1,6 +1,7 @@
 """Per-body analyses: pruned CFG, dominators, post-dominators, natural loops,
 reaching definitions and origin terms (see DESIGN.md section 4)."""
 from collections import defaultdict
+import re
 from .facts import op_place
 
 # ---------------------------------------------------------------------------
@@ -345,7 +346,9 @@ class FnA:
             parts = []
             for d in self.body.defs.get(l, []):
                 if d[3]["p"] and proj_eq(d[3]["p"], proj) and d[0] == "assign":
-                    parts.append(d)
+                    # only definitions that can execute before this use
+                    if (d[1] == bi and d[2] is not None and d[2] < pos) or (d[1] != bi and self.can_reach(d[1], bi)) or (d[1] == bi and bi in self.reach(bi)):
+                        parts.append(d)
             if parts:
                 terms = [self.origin_rvalue(d[4], d[1], d[2], depth + 1, seen) for d in parts]
                 terms.append(self._project(base, proj, bi, pos, depth, seen))
@@ -612,6 +615,11 @@ def roots(t):
             out.extend(roots(x))
         return out
     return [t]
+
+
+def term_sig(t):
+    """rendering without block numbers: comparable across functions"""
+    return re.sub(r"@bb\d+", "", term_str(t))
 
 
 def term_str(t):
